@@ -15,10 +15,10 @@ ENTRIES = [
 
 
 def run(ctx):
-    R.rule_c1(ctx)
-    R.rule_chart_slot(ctx)
-    n1(ctx, ["geometry_tools/projective.py"])
-    PR.rule_bm1(ctx)
-    u1(ctx, ENTRIES, min_functions=15)
+    ctx.do(R.rule_c1)
+    ctx.do(R.rule_chart_slot)
+    ctx.do(n1, ["geometry_tools/projective.py"])
+    ctx.do(PR.rule_bm1)
+    ctx.do(u1, ENTRIES, min_functions=15)
     ctx.r.assume("affine maps, translations, intersections and eigenvectors "
                  "are numerical clauses and not decided")
